@@ -231,6 +231,7 @@ impl MapProfile {
 
 pub const ALL_MODES: &[u8] = &[0, 1, 2, 3];
 pub const OSU_ONLY: &[u8] = &[0];
+pub const MANIA_ONLY: &[u8] = &[3];
 
 const BEAT_LENS: &[f64] = &[500.0, 333.333333333333, 400.0, 300.0, 250.0, 600.0, 1000.0, 200.0, 150.0, 2000.0, 375.0, 461.538461538462];
 const SVS: &[f64] = &[1.0, 0.5, 0.75, 1.5, 2.0, 0.1, 1.25, 3.0, 10.0, 0.33];
@@ -321,7 +322,8 @@ fn gen_slider(t: &mut Tape, x: i32, y: i32, p: &MapProfile) -> ObjKind {
 fn pick_kind(t: &mut Tape, mode: u8, adversarial: bool) -> u8 {
     // 0 circle 1 slider 2 spinner 3 hold
     match (mode, adversarial) {
-        (3, false) => *t.pick(&[0u8, 0, 0, 3, 3]),
+        // (a slider- or spinner-typed line in a mania file is kept by the decoder; rare here)
+        (3, false) => *t.pick(&[0u8, 0, 0, 3, 3, 0, 0, 0, 3, 3, 0, 0, 0, 3, 3, 0, 0, 0, 3, 3, 1, 2]),
         (3, true) => *t.pick(&[0u8, 0, 3, 3, 1, 2]),
         // (the decoder keeps a hold-note line in any mode: the non-mania calculators treat it as a spinner)
         (_, false) => *t.pick(&[0u8, 0, 0, 1, 1, 2, 0, 0, 0, 1, 1, 2, 0, 0, 0, 1, 1, 2, 3]),
